@@ -144,7 +144,25 @@ func (si *StrideInfo) LoopFootprints() []Footprint {
 			}
 			// loop condition: compare on phi (or on phi+stride for rotated loops)
 			found := false
-			for _, cand := range []ssa.Value{phi} {
+			// the compared value: the loop variable, or the loop variable plus a multiple of the stride
+			// (`i+stride <= len(line)` is `i <= len(line)-stride`)
+			cands := []ssa.Value{phi}
+			shift := map[ssa.Value]int64{phi: 0}
+			for _, rf := range Referrers(phi) {
+				if add, ok := rf.(*ssa.BinOp); ok && add.Op == token.ADD {
+					if l := si.linOf(add, 0); l.OK && l.Base == ssa.Value(phi) && l.C == 0 && l.M != 0 {
+						isStep := false
+						for _, e := range phi.Edges {
+							isStep = isStep || e == ssa.Value(add)
+						}
+						if !isStep {
+							cands = append(cands, add)
+							shift[add] = l.M
+						}
+					}
+				}
+			}
+			for _, cand := range cands {
 				for _, rf := range Referrers(cand) {
 					bo, ok := rf.(*ssa.BinOp)
 					if !ok || (bo.Op != token.LSS && bo.Op != token.LEQ) || bo.X != cand {
@@ -163,7 +181,7 @@ func (si *StrideInfo) LoopFootprints() []Footprint {
 					if bl.C != 0 {
 						fp.Why = fmt.Sprintf("loop bound is %d ordinates off a coordinate boundary", bl.C)
 					}
-					fp.BoundBase, fp.B, fp.Cmp = bl.Base, bl.M, bo.Op
+					fp.BoundBase, fp.B, fp.Cmp = bl.Base, bl.M-shift[cand], bo.Op
 					found = true
 				}
 			}
@@ -231,6 +249,21 @@ func (si *StrideInfo) LoopFootprints() []Footprint {
 									csi := si.All[callee]
 									if alignedParamName(prm.Name()) || (csi != nil && csi.CoordBaseParam(prm)) {
 										visit(x.Common().Args[i])
+										// the coordinates the helper touches relative to the offset it is handed
+										// (addSegment(line, i) reads the points at i and i+stride)
+										if csi != nil && !alignedParamName(prm.Name()) {
+											if al := si.linOf(x.Common().Args[i], 0); al.Base == ssa.Value(phi) {
+												for _, m := range csi.paramOffsets(prm) {
+													q := al.M + m
+													if q < fp.MinQ {
+														fp.MinQ = q
+													}
+													if q > fp.MaxQ {
+														fp.MaxQ = q
+													}
+												}
+											}
+										}
 									}
 								}
 							}
